@@ -5,6 +5,8 @@ import P2.Model.Heights
 
 namespace P2.Heights
 
+set_option linter.unusedSectionVars false
+
 section
 variable {K V : Type} [DecidableEq K]
 
